@@ -7,11 +7,26 @@ package libvore
 // C19: a call may only write memory it allocated itself (and, for Run, nothing that belongs to
 // the compiled program), decided by write-effect inference over the SSA call graph: for every
 // schedule at once, two calls that share only memory that neither writes cannot race.
-//@ func Compile [C19]
-//@   effects noglobals
+//@ func Compile [C19 C18]
+//@   effects noglobals [C19]
+//@   effects nocomp stdout [C18]
+//@   trusted
+//@   modifies *
+//@ func CompileFile [C18]
+//@   effects nocomp stdout
+//@   trusted
+//@   modifies *
+//@ func (*Vore).PrintAST [C18]
+//@   trusted
+//@   modifies *
+//@ func (*Vore).PrintBytecode [C18]
+//@   trusted
+//@   modifies *
 //@ func (*Vore).Run [C19 C13]
 //@   effects noglobals
 //@   effects nowrite bytecode ast int
-//@ func (*Vore).RunFiles [C19]
-//@   effects noglobals
-//@   effects nowrite bytecode ast int
+//@ func (*Vore).RunFiles [C19 C18]
+//@   effects noglobals [C19]
+//@   effects nowrite bytecode ast int [C19]
+//@   trusted
+//@   modifies *
